@@ -647,7 +647,12 @@ def round_dp(x, d):
     |r - x| <= 0.5*10^-d; equal arguments share r (cache keyed by canonical form)."""
     if not isinstance(x, SymReal):
         return round(x, d)
-    if x.is_const():
+    if EX is not None and getattr(EX, "exact_replay", False):
+        # exact-model re-run of a symbolic path: same rounding model as the symbolic run
+        if d >= ROUND_IDENTITY_DP or EX.round_identity:
+            return x
+        return lift(round(float(x.const_value()), d)) if x.is_const() else x
+    if x.is_const() and (EX is None or getattr(EX, "lift_mode", False) or d < ROUND_IDENTITY_DP):
         return lift(round(float(x.const_value()), d))
     if d >= ROUND_IDENTITY_DP or EX is None or EX.round_identity:
         return x
@@ -680,6 +685,7 @@ class Explorer:
         self.path_hooks = []       # callables run at the start of each path (reset per-path registries)
         self.deadline = None
         self.timed_out = False
+        self.grid_budget = 4       # exactly-representable counterexample models requested per task (each may cost seconds)
 
     # --- solver plumbing
     def assume(self, c):
@@ -815,8 +821,10 @@ class Explorer:
         return None
 
     # --- driver
-    def run_all(self, fn, prefix=None, max_paths=10 ** 9, deadline=None):
-        """Run fn(self) on every feasible path.  `prefix`: list of forced decisions (sub-tree)."""
+    def run_all(self, fn, prefix=None, max_paths=10 ** 9, deadline=None, path_budget=None):
+        """Run fn(self) on every feasible path.  `prefix`: list of forced decisions (sub-tree).
+        `path_budget`: after that many paths, stop and hand the unexplored sibling sub-trees back in
+        self.prefixes (work splitting; nothing is dropped)."""
         results = []
         self.deadline = deadline
         if prefix:
@@ -846,6 +854,12 @@ class Explorer:
             while self.stack and self.stack[-1][1]:
                 self.stack.pop()
             if not self.stack or self.npaths >= max_paths:
+                break
+            if path_budget is not None and self.npaths >= path_budget:
+                for i, (c, done) in enumerate(self.stack):
+                    if not done:
+                        self.prefixes.append([e[0] for e in self.stack[:i]] + [not c])
+                self.stack = []
                 break
             self.stack[-1] = [not self.stack[-1][0], True]
         return results
@@ -884,6 +898,7 @@ class SymCtx:
         self.checked = 0
         self.unknown = 0
         self.tags = set()
+        self.grid_scale = 2 ** GRID_BITS
 
     def real(self, name, lo=None, hi=None, grid=None):
         x = real_var(name)
@@ -925,6 +940,18 @@ class SymCtx:
         """Branch on a condition (forks)."""
         return bool(cond)
 
+    def ite(self, cond, a, b):
+        """if-then-else value without forking: a fresh real r with (cond -> r = a) and (not cond -> r = b)."""
+        if isinstance(cond, (bool, _np.bool_)):
+            return a if cond else b
+        self._nite = getattr(self, "_nite", 0) + 1
+        r = real_var(f"ite!{self._nite}")
+        c = cond.t
+        self.ex.solver.add(z3.And(z3.Implies(c, r.t == T(a)), z3.Implies(z3.Not(c), r.t == T(b))))
+        if self.ex.model is not None:
+            self.ex.model = None
+        return r
+
     def _grid_constraints(self, scale=64):
         cs = []
         for name, spec in self.inputs.items():
@@ -942,6 +969,22 @@ class SymCtx:
                 env[name] = int(_model_value(model, z3.Int(name)))
         return env
 
+    def grid_inputs(self, scale=64, timeout_ms=1000):
+        """A model of the current path whose real inputs are all multiples of 1/scale (or None)."""
+        ex = self.ex
+        m = None
+        try:
+            ex.solver.push()
+            ex.solver.set("timeout", timeout_ms)
+            for c in self._grid_constraints(scale):
+                ex.solver.add(c)
+            if str(ex.check()) == "sat":
+                m = ex.solver.model()
+        finally:
+            ex.solver.pop()
+            ex.solver.set("timeout", ex_timeout(ex))
+        return self.input_model(m) if m is not None else None
+
     def _find_model(self, extra, grid=False):
         """sat model of pc + extra; with grid=True prefer dyadic (2^-GRID_BITS) input values so that the
         float replay is exact (falls back to the plain model when the mixed-integer query is not quick)."""
@@ -954,8 +997,8 @@ class SymCtx:
             return "sat", m
         try:
             ex.solver.push()
-            ex.solver.set("timeout", 5000)
-            for c in list(extra) + self._grid_constraints(2 ** GRID_BITS):
+            ex.solver.set("timeout", 3000)
+            for c in list(extra) + self._grid_constraints(self.grid_scale):
                 ex.solver.add(c)
             r2 = str(ex.check())
             if r2 == "sat":
@@ -982,9 +1025,11 @@ class SymCtx:
         r, m = self._find_model([neg] + outside)
         if r == "sat":
             self.candidates.append({"label": label, "region": None, "inputs": self.input_model(m)})
-            r2, m2 = self._find_model([neg] + outside, grid=True)
-            if m2 is not None:
-                self.candidates.append({"label": label, "region": None, "inputs": self.input_model(m2)})
+            if self.ex.grid_budget > 0:
+                self.ex.grid_budget -= 1
+                r2, m2 = self._find_model([neg] + outside, grid=True)
+                if m2 is not None:
+                    self.candidates.append({"label": label, "region": None, "inputs": self.input_model(m2)})
         elif r == "unknown":
             self.unknown += 1
         for rid, t in self.regions:
@@ -1055,6 +1100,9 @@ class LiftCtx:
 
     def holds(self, cond):
         return bool(cond)
+
+    def ite(self, cond, a, b):
+        return a if bool(cond) else b
 
     def require(self, cond, label):
         if not bool(cond):
